@@ -92,10 +92,26 @@ func (st *c04State) write(w *hz.World, wr corebgp.UpdateMessageWriter, epoch, wi
 	return err
 }
 
+// writeCopy is write for a caller that goes on using the memory of body: the record
+// keeps what body held when the call was made.
+func (st *c04State) writeCopy(w *hz.World, wr corebgp.UpdateMessageWriter, epoch, wid, seq int, body []byte) error {
+	c := &wcall{epoch: epoch, wid: wid, seq: seq, body: append([]byte(nil), body...), at: w.Now()}
+	st.mu.Lock()
+	st.calls = append(st.calls, c)
+	st.mu.Unlock()
+	err := wr.WriteUpdate(body)
+	st.mu.Lock()
+	c.err = err
+	c.retAt = w.Now()
+	st.mu.Unlock()
+	return err
+}
+
 const (
 	widOnEst   = 200 // call made from inside OnEstablished
 	widHandler = 201 // calls made from inside the update handler
 	widShort   = 202 // writer using bodies shorter than an id (0..11 bytes)
+	widArena   = 203 // writer whose bodies are carved back to back from one buffer, filled in pairs before they are written
 )
 
 func c04World(t *testing.T, p c04Params) rt.Result {
@@ -140,6 +156,32 @@ func c04World(t *testing.T, p c04Params) rt.Result {
 					}
 				}()
 			}
+			// a writer that encodes its bodies back to back into one buffer (the slices have
+			// spare capacity into the next body) and writes them afterwards: what reaches the
+			// wire is what each slice held when it was filled
+			st.wg.Add(1)
+			go func() {
+				defer st.wg.Done()
+				r := rand.New(rand.NewPCG(p.Seed, uint64(ep)*1000+888))
+				arena := make([]byte, 0, 1<<16)
+				for seq := 0; !st.stop.Load() && seq < 60; seq += 2 {
+					arena = arena[:0]
+					var pair [2][]byte
+					for k := range pair {
+						b := c04Body(r, ep, widArena, seq+k)
+						if len(b) > 300 {
+							b = b[:300]
+						}
+						off := len(arena)
+						arena = append(arena, b...)
+						pair[k] = arena[off:len(arena)] // capacity reaches to the end of the buffer
+					}
+					for k := range pair {
+						st.writeCopy(w, s.Writer, ep, widArena, seq+k, pair[k])
+					}
+					time.Sleep(time.Duration(r.IntN(80)) * time.Millisecond)
+				}
+			}()
 			// a writer with bodies too short to carry an id
 			st.wg.Add(1)
 			go func() {
